@@ -19,6 +19,19 @@ structure PagingFacts where
   evictStrict : Bool
   deriving Repr, DecidableEq, Inhabited
 
+/-- what the extractor reads out of `float64SymbolComparator.Compare` (boltz/query_sort.go) and
+    `objectFloat64SymbolComparator.compare` (objectz/object_store_sort.go): the if / else-if chain on
+    the two keys -/
+structure FloatCmpFacts where
+  /-- the chain is `s1 == nil`, `s2 == nil`, [the NaN branch], `*s1 < *s2`, `*s1 > *s2` with the expected bodies -/
+  recognised : Bool
+  /-- the branch `*s1 != *s1 || *s2 != *s2` (NaN before every number, NaNs tie) is present -/
+  nanFirst : Bool
+  deriving Repr, DecidableEq, Inhabited
+
+/-- the comparator shape the theorems are proved for (`cmpFloatVal = cmpFloatValWith true`) -/
+def expectedFloatCmp : FloatCmpFacts := ⟨true, true⟩
+
 /-- the arithmetic the C02/C19 theorems are proved for -/
 def expectedPaging : PagingFacts := ⟨true, true, true, true⟩
 
